@@ -26,7 +26,8 @@ def ints(v):
 def read_view(kind, obj):
     """everything the object reports, as plain ints"""
     if kind == "node":
-        return {"x": ints([obj.x]), "ty": ints([obj.type]), "id": [int(obj.id)], "idxok": int(obj["x"] == obj.x), "segs": []}
+        return {"x": ints([obj.x]), "ty": ints([obj.type]), "id": [int(obj.id)],
+                "idxok": int(obj["x"] == obj.x and ("level" not in obj.attach.ndata or obj["level"] == obj.attach.ndata["level"][obj.idx])), "segs": []}
     if kind == "nodes":
         return {"x": ints([n.x for n in obj]), "ty": ints([n.type for n in obj]), "id": [int(n.id) for n in obj], "idxok": 1, "segs": []}
     x, ty = ints(obj.x()), ints(obj.type())
@@ -54,13 +55,15 @@ def execute(c):
     from swcgeom.core import Tree
     xs0 = np.array([10 + k + 1 for k in range(n)], dtype=np.float32)
     ty0 = np.array([1 + (k + 1) % 3 for k in range(n)], dtype=np.int32)
-    e0 = np.array([50 + k + 1 for k in range(n)], dtype=np.int32)
+    # the extra column is called "level" (one of the extended-SWC column names) and is held as float64 (what the reader produces) or int32
+    e0 = np.array([50 + k + 1 for k in range(n)], dtype=np.int32 if lib.vid(c) % 2 else np.float64)
     if lib.vid(c) % 3 == 1:
         # the same values held in strided columns (columns of one 2-d block, as after an affine transform or a table sliced column-wise)
         fb = np.zeros((n, 3), dtype=np.float32); fb[:, 1] = xs0
-        ib = np.zeros((n, 2), dtype=np.int32); ib[:, 0] = ty0; ib[:, 1] = e0
-        xs0, ty0, e0 = fb[:, 1], ib[:, 0], ib[:, 1]
-    t0 = Tree(n, source=lib.SRC, id=np.arange(n, dtype=np.int32), pid=np.array(P, dtype=np.int32), x=xs0, type=ty0, e=e0)
+        ib = np.zeros((n, 2), dtype=np.int32); ib[:, 0] = ty0
+        eb = np.zeros((n, 2), dtype=e0.dtype); eb[:, 1] = e0
+        xs0, ty0, e0 = fb[:, 1], ib[:, 0], eb[:, 1]
+    t0 = Tree(n, source=lib.SRC, id=np.arange(n, dtype=np.int32), pid=np.array(P, dtype=np.int32), x=xs0, type=ty0, level=e0)
     if lib.vid(c) % 3 == 1 and t0.ndata["x"].flags["C_CONTIGUOUS"]:
         t0.ndata["x"], t0.ndata["type"] = xs0, ty0          # the constructor made them contiguous: install the strided columns directly
     trees, views = [t0], []       # views: (kind, object, origin_ids-for-detached)
@@ -96,6 +99,8 @@ def execute(c):
                 nd = views[act["v"] - 1][1]
                 if act["col"] == "x":
                     nd.x = float(act["val"])
+                elif act["col"] == "e":
+                    nd["level"] = act["val"]
                 else:
                     nd.type = int(act["val"])
             elif a == "copy":
@@ -123,7 +128,7 @@ def execute(c):
             except Exception as ex:
                 rv = {"x": [], "ty": [], "id": [], "idxok": 0, "segs": [], "readerr": type(ex).__name__}
             rep_views.append(rv)
-        steps.append({"exc": exc, "trees": [{"x": ints(t.x()), "ty": ints(t.type()), "e": ints(t.ndata["e"]) if "e" in t.ndata else []} for t in trees], "views": rep_views})
+        steps.append({"exc": exc, "trees": [{"x": ints(t.x()), "ty": ints(t.type()), "e": ints(t.ndata["level"]) if "level" in t.ndata else []} for t in trees], "views": rep_views})
     segs = t0.get_segments()
     treesegs = [[int(i) for i in s.origin_id()] for s in segs]
     if len(segs):
